@@ -53,11 +53,11 @@ Definition data_message_with (o : dopts) (b : N) (compressed : bool) (dm : defms
        (fun msgv =>
           if negb compressed then parse_data_fields o dm known msgv else
           bind get_st (fun s =>
-          if ds_ts s =? 0 then parse_data_fields o dm known msgv else
+          if negb (ds_hasts s) then parse_data_fields o dm known msgv else
           let off := N.land b c_compressedTimeMask in
           let delta := (off + 32 - ds_lastoff s) mod 32 in
           let ts := (ds_ts s + delta) mod 2 ^ 32 in
-          bind (put_st (if ts =? 0 then with_quirk (with_time s ts off) Q_TS_ZERO else with_time s ts off)) (fun _ =>
+          bind (put_st (with_time s ts off)) (fun _ =>
           match get_field gmn c_fieldNumTimeStamp with
           | Some p =>
               match msgv with
@@ -113,28 +113,25 @@ Lemma invalid_time_untouched : forall s kind num, parse_time_stamp s 0xFFFFFFFF 
 Proof. reflexivity. Qed.
 
 (* local_date_time with a usable reference: the reference instant, in a zone of offset local - UTC *)
-Lemma local_time_with_reference : forall s u num, u <> 0xFFFFFFFF -> c_systemTimeMarker <= ds_ts s ->
+Lemma local_time_with_reference : forall s u num, u <> 0xFFFFFFFF -> ds_hasts s = true -> c_systemTimeMarker <= ds_ts s ->
   parse_time_stamp s u kind_timelocal num = (Some (VTime (Z.of_N (ds_ts s)) 0 (Some (Z.of_N u - Z.of_N (ds_ts s))%Z)), s).
 Proof.
-  intros s u num Hu Hts. unfold parse_time_stamp.
+  intros s u num Hu Hh Hts. unfold parse_time_stamp.
   destruct (N.eqb_spec u 0xFFFFFFFF); [contradiction|].
-  change (kind_timelocal =? kind_timeutc) with false. cbv iota.
-  replace (ds_ts s =? 0) with false by (symmetry; apply N.eqb_neq; unfold c_systemTimeMarker in Hts; lia).
+  change (kind_timelocal =? kind_timeutc) with false. cbv iota. rewrite Hh. cbn [negb orb].
   replace (ds_ts s <? c_systemTimeMarker) with false by (symmetry; apply N.ltb_ge; assumption).
   reflexivity.
 Qed.
 
-(* without a usable reference: offset 0 -- and the local value becomes the reference (the recorded defect) *)
-Lemma local_time_without_reference : forall s u num, u <> 0xFFFFFFFF -> ds_ts s < c_systemTimeMarker ->
-  fst (parse_time_stamp s u kind_timelocal num) = Some (VTime (Z.of_N u) 0 (Some 0%Z)) /\
-  ds_ts (snd (parse_time_stamp s u kind_timelocal num)) = u /\
-  In Q_LOCAL_SETS_REF (ds_quirks (snd (parse_time_stamp s u kind_timelocal num))).
+(* without a usable reference (none yet, or a power-on-relative one): offset 0, and the decoder state is untouched *)
+Lemma local_time_without_reference : forall s u num, u <> 0xFFFFFFFF -> (ds_hasts s = false \/ ds_ts s < c_systemTimeMarker) ->
+  parse_time_stamp s u kind_timelocal num = (Some (VTime (Z.of_N u) 0 (Some 0%Z)), s).
 Proof.
-  intros s u num Hu Hts. unfold parse_time_stamp.
+  intros s u num Hu Hno. unfold parse_time_stamp.
   destruct (N.eqb_spec u 0xFFFFFFFF); [contradiction|].
   change (kind_timelocal =? kind_timeutc) with false. cbv iota.
-  replace (ds_ts s <? c_systemTimeMarker) with true by (symmetry; apply N.ltb_lt; assumption).
-  rewrite orb_true_r. cbn. repeat split. now left.
+  replace (negb (ds_hasts s) || (ds_ts s <? c_systemTimeMarker)) with true; [reflexivity|].
+  symmetry. destruct Hno as [Hh|Hlt]; [rewrite Hh; reflexivity|]. apply orb_true_iff. right. now apply N.ltb_lt.
 Qed.
 
 (* ------------------------------------------------------------ C16: unknown-item lists *)
